@@ -1,4 +1,5 @@
-(* Properties/C19.v — 1-Euclidean recognition is exact and its embedding realises the votes.   PARTIAL.
+(* Properties/C19.v — 1-Euclidean recognition is exact and its embedding realises the votes.
+   PARTIAL with respect to the implementation (bounded comparison), complete with respect to the specification.
 
    Property text: "is_one_euclidean answers True exactly when voters and alternatives can be placed on the real
    line so that every voter ranks the alternatives by strictly increasing distance from their own position.
@@ -20,13 +21,19 @@
                             proved exact in Proofs/SP.v, Proofs/SC.v)  ==>  no embedding exists, so the only
                             correct answer is False (negative oracle);
      * Euclidean_perm     : the specification does not depend on the storage order of the ballots.
-   NOT promised and NOT proved: a complete decision procedure for 1-Euclidean profiles (there are single-peaked
-   and single-crossing profiles that are not 1-Euclidean; deciding them needs exact LP feasibility over Q, e.g.
-   Fourier-Motzkin elimination, for every candidate axis). "answers True exactly when" is therefore checked
-   only from both sides: True is demanded on planted embeddings, False on refuted profiles.
-   The implementation (colouring, LP through CBC, placement of grey alternatives) is not mirrored. *)
+     * eucl_decide_correct (stretch goal, reached): eucl_decide — for every axis on which the profile is
+                            single-peaked, Fourier-Motzkin elimination (fuel-free, recursion on the number of
+                            variables, fm_feasible_correct: sound AND complete over Q) of the strict linear system
+                            "alternatives in axis order, every voter on the right side of every midpoint" — is an
+                            EXACT decision procedure for the specification, for all sizes. It is doubly exponential,
+                            so the correspondence runs it for m <= 6 alternatives and n <= 6 distinct orders.
+   What is NOT proved: anything about the implementation's algorithm (colouring, LP through CBC, placement of
+   grey alternatives are not mirrored); the implementation is compared with eucl_decide on small profiles, its
+   True answers are checked through eucl_check at every size, and beyond the small sizes False answers are only
+   checked on planted embeddings (positive oracle) and True answers on refuted profiles (negative oracle). *)
 From Coq Require Import List NArith ZArith QArith Qabs Bool Permutation Sorted.
-From PrefVerif Require Import Lib.Contig Model.SP Model.SC Model.Euclid Proofs.SP Proofs.SC Proofs.Euclid.
+From PrefVerif Require Import Lib.Contig Model.SP Model.SC Model.Euclid Model.EuclidLP
+                              Proofs.SP Proofs.SC Proofs.Euclid Proofs.EuclidLP.
 Import ListNotations.
 Open Scope Q_scope.
 
@@ -118,6 +125,31 @@ Theorem Euclidean_perm : forall profile profile',
 Proof. exact Proofs.Euclid.Euclidean_perm. Qed.
 Print Assumptions Euclidean_perm.
 
+(* ---- clause 1: an exact reference for "answers True exactly when ..." ------------------------------------- *)
+(* Fourier-Motzkin elimination decides strict homogeneous linear systems over Q (constraint c: eval c env < 0) *)
+Theorem fm_feasible_correct : forall (n : nat) (sys : list (list Q)),
+  fm_feasible n sys = true <-> exists env : list Q, length env = n /\ Forall (fun c => eval c env < 0) sys.
+Proof. exact Proofs.EuclidLP.fm_feasible_correct. Qed.
+Print Assumptions fm_feasible_correct.
+
+(* the system built for an axis is feasible iff there is an embedding with the alternatives in axis order *)
+Theorem eucl_system_correct : forall axis profile,
+  NoDup axis -> Forall (fun r => Permutation axis r) profile ->
+  (eucl_axis_feasible axis profile = true <->
+   exists (x : N -> Q) (vpos : list Q), StronglySorted (fun a b => x a < x b) axis /\ realises x vpos profile).
+Proof. exact Proofs.EuclidLP.eucl_system_correct. Qed.
+Print Assumptions eucl_system_correct.
+
+(* the reference decider (protocol operation c19.decide) is exact, for all sizes *)
+Theorem eucl_decide_correct : forall alts profile,
+  NoDup alts -> Forall (fun r => Permutation alts r) profile ->
+  (eucl_decide alts profile = true <->
+   exists (x : N -> Q) (vpos : list Q),
+     Forall2 (fun v r => forall i j a b, (i < j)%nat -> nth_error r i = Some a -> nth_error r j = Some b ->
+                           Qabs (v - x a) < Qabs (v - x b)) vpos profile).
+Proof. exact Proofs.EuclidLP.eucl_decide_correct. Qed.
+Print Assumptions eucl_decide_correct.
+
 (* ---- non-vacuity ------------------------------------------------------------------------------------------ *)
 (* a 1-Euclidean profile with its embedding: alternatives 1,2,3 at 0,4,10; voters at 1, 3, 8 *)
 Example euclidean_example :
@@ -163,3 +195,12 @@ Example refuted_by_sc_only :
   sp_decide [1;2;3;4]%N [[2;1;3;4]; [2;3;1;4]; [3;2;1;4]; [3;2;4;1]; [2;3;4;1]]%N = true /\
   sc_decide [1;2;3;4]%N [[2;1;3;4]; [2;3;1;4]; [3;2;1;4]; [3;2;4;1]; [2;3;4;1]]%N = false.
 Proof. split; vm_compute; reflexivity. Qed.
+
+(* the reference decider on the examples above, and on a profile that is single-peaked (axis 1..6) AND
+   single-crossing but NOT 1-Euclidean: the necessary conditions are not sufficient, the LP is needed *)
+Example decide_examples :
+  eucl_decide [1;2;3]%N [[1;2;3]; [2;1;3]; [3;2;1]]%N = true /\
+  eucl_decide [1;2;3]%N [[1;2;3]; [2;3;1]; [3;1;2]]%N = false /\
+  (let alts := [1;2;3;4;5;6]%N in let p := [[3;2;4;5;6;1]; [5;4;3;2;6;1]; [3;2;1;4;5;6]]%N in
+   eucl_refuted alts p = false /\ eucl_decide alts p = false).
+Proof. repeat split; vm_compute; reflexivity. Qed.
